@@ -272,6 +272,9 @@ func (r *SparseInt32Matrix) Jacobian(f func(ConstVector) ConstVector, x_ MagicVe
      n = y.Dim()
      m = x.Dim()
     *r = *NullSparseInt32Matrix(n, m)
+  } else {
+    // a recycled receiver may hold entries where the new derivative is zero
+    r.Reset()
   }
   // copy derivatives
   for i := 0; i < n; i++ {
@@ -291,6 +294,9 @@ func (r *SparseInt32Matrix) Hessian(f func(ConstVector) ConstScalar, x_ MagicVec
      n = x_.Dim()
      m = x_.Dim()
     *r = *NullSparseInt32Matrix(n, m)
+  } else {
+    // a recycled receiver may hold entries where the new derivative is zero
+    r.Reset()
   }
   x := x_.CloneMagicVector()
   x.Variables(2)
